@@ -797,6 +797,10 @@ func (o *oracle) evaluate(r *rig, k *tmi.VerifKState, prev *tmi.VerifKState, sit
 			}
 			chk("prevote", pv.BlockSignatures, e.v.PrevoteProofs)
 			chk("precommit", pc.BlockSignatures, e.v.PrecommitProofs)
+			// ... and so is every vote that had been durably written for the round before, even if a later write of the
+			// same round's collection no longer contained it (a write that drops persisted votes loses them at this restart)
+			chk("prevote", r.stores.everVotes(e.v.Height, e.v.Round, "prevote"), e.v.PrevoteProofs)
+			chk("precommit", r.stores.everVotes(e.v.Height, e.v.Round, "precommit"), e.v.PrecommitProofs)
 		}
 	}
 
@@ -1073,6 +1077,14 @@ func (rn *runner) runBehaviour(b behaviour) {
 			// the model's crash point
 			switch st.Op {
 			case "Vote", "PH", "Replay":
+				if !alive {
+					continue
+				}
+			case "Restart":
+				// only after a crash (the stores are the ones the real process left behind)
+				if alive {
+					continue
+				}
 			case "RecvSM":
 				if prevK == nil || prevK.SMOut.None {
 					continue
@@ -1642,19 +1654,28 @@ func (rn *runner) runBehaviour(b behaviour) {
 		}
 
 		// ---- crash injection: keep only the first CrashAt store writes of this step
-		if st.CrashAt > 0 && diverged {
-			break
-		}
 		if st.CrashAt > 0 {
 			made := stores.nPoints() - pointsBefore
-			if made != st.NWrites {
+			crashAt := st.CrashAt
+			if made != st.NWrites && !diverged {
 				rn.nMismatch++
 				rn.out.Emit(vc.M{"kind": "mismatch", "beh": b.ID, "step": i, "op": st.Op, "args": st.Args,
 					"diff": []string{fmt.Sprintf("store writes in this step: spec=%d real=%d", st.NWrites, made)}})
-				return
+				diverged = true
+			}
+			if diverged {
+				// free run: the process still dies inside this step, after the write the model named or after the last
+				// write the real step made; without any write there is no crash point and the run goes on
+				if made == 0 {
+					prevK = k
+					continue
+				}
+				if crashAt > made {
+					crashAt = made
+				}
 			}
 			r.stop()
-			stores = stores.rebuild(w.HashScheme, pointsBefore+st.CrashAt)
+			stores = stores.rebuild(w.HashScheme, pointsBefore+crashAt)
 			keepCommitted := o.committed
 			keepEarly := o.filedEarly
 			r = newRig(w, stores)
@@ -1692,12 +1713,14 @@ func (rn *runner) runBehaviour(b behaviour) {
 			must(json.Unmarshal(st.Exp, &ea))
 			want := canon(ea)
 			got := canon(toAny(M{"down": true, "st": r.absStores()}))
-			if jsFull(want) != jsFull(got) {
+			if !diverged && jsFull(want) != jsFull(got) {
 				var d []string
 				diff("", want, got, &d)
 				rn.nMismatch++
 				rn.out.Emit(vc.M{"kind": "mismatch", "beh": b.ID, "step": i, "op": st.Op, "args": st.Args, "diff": d})
-				return
+				// the stores the process left behind are not the ones the model predicts: the restart that follows is a
+				// free run, judged by the predicates alone
+				diverged = true
 			}
 			continue
 		}
